@@ -10,10 +10,15 @@ def pushOps : List SrcOp :=
 
 /-- shared-memory accesses of `Pop` in source order -/
 def popOps : List SrcOp :=
-  [.loadHead, .loadNext, .casHead, .readVal, .writeVal, .addLen (-1)]
+  [.loadHead, .loadTail, .loadNext, .casHead, .readVal, .writeVal, .addLen (-1)]
 
 /-- shared-memory accesses of `Len` in source order -/
 def lenOps : List SrcOp :=
   [.loadLen]
+
+/-- control skeleton of `PopWait` in source order: tests of the duration parameter, loops,
+calls of `Pop`, `runtime.Gosched`, returns, the ticker -/
+def popWaitOps : List SrcOp :=
+  [.cond "d < 0", .loop, .callPop, .ret, .gosched, .callPop, .ret, .cond "d == 0", .ret, .ticker, .loop, .callPop, .ret, .cond "? >= d", .ret]
 
 end Golib.Gen.C11
